@@ -183,6 +183,19 @@ theorem C12_frame (v : Variant) (s s' : State) (op : Op) (h : step v s op = .ok 
     cases ok <;> simp [step] at h
     subst h; simp
 
+/-- the three near-copies do not diverge on the schedule: clock, `UpdateStartTime` and `UpdateEndTime` behave
+identically in the plain, flex and Merkle whitelist (only which *other* messages exist differs) -/
+theorem C12_variant_independent (v w : Variant) (s : State) (op : Op)
+    (h : (∃ t, op = .setTime t) ∨ (∃ a t, op = .updateStart a t) ∨ (∃ a t, op = .updateEnd a t) ∨
+         (∃ a l, op = .updateAdmins a l) ∨ (∃ a, op = .freeze a)) :
+    step v s op = step w s op := by
+  rcases h with ⟨t, rfl⟩ | ⟨a, t, rfl⟩ | ⟨a, t, rfl⟩ | ⟨a, l, rfl⟩ | ⟨a, rfl⟩ <;> rfl
+
+/-- … and where the plain and flex whitelists both have `RemoveMembers`, its gate is the same -/
+theorem C12_remove_plain_flex (s : State) (a : Addr) (p : Bool) :
+    step .plain s (.removeMembers a p) = step .flex s (.removeMembers a p) := by
+  simp [step]
+
 /-! ## Well-formedness over all histories -/
 
 /-- one (successful) message preserves `genesis ≤ start ≤ end` -/
